@@ -341,6 +341,10 @@ func Domain(c *core.Ctx) ([]byte, map[string]int, int) {
 		if i%4 == 0 {
 			d.add("rt", x, undef)
 		}
+		if i%8 == 0 { // ToString of the argument is step 1 of parseInt / parseFloat
+			d.add("parseIntNum", x, undef)
+			d.add("parseFloatNum", x, undef)
+		}
 		if i%16 == 0 {
 			d.add("concat", x, undef)
 			d.add("toString", x, undef)
@@ -465,6 +469,29 @@ func Domain(c *core.Ctx) ([]byte, map[string]int, int) {
 	return d.lines.Bytes(), d.byOp, d.n
 }
 
+// selfDomain: String(x) cases on which TLC also evaluates the independent
+// formulation NumText!ShortestDigits and asserts agreement with NumFmt!ShortDigits.
+func selfDomain(c *core.Ctx) ([]byte, int) {
+	n := 40
+	if c.Thorough() {
+		n = 400
+	}
+	d := &dom{rng: rand.New(rand.NewSource(c.Seed*104729 + 5)), seen: map[string]bool{}, byOp: map[string]int{}}
+	for i := 0; i < n; i++ {
+		switch i % 4 {
+		case 0:
+			d.add("String", d.anyBits(), undef)
+		case 1:
+			d.add("String", d.subnormal(), undef)
+		case 2:
+			d.add("String", ulps(math.Pow(10, float64(d.rng.Intn(617)-308)), d.rng.Intn(5)-2), undef)
+		default:
+			d.add("String", d.moderate(-80, 90), undef)
+		}
+	}
+	return d.lines.Bytes(), d.n
+}
+
 func cfg(c *core.Ctx, fam string, maxLen, litLen int) string {
 	return fmt.Sprintf("CONSTANTS\n OpenDev = %s\n Fam = %q\n MaxLen = %d\n LitLen = %d\nINIT Init\nNEXT Next\nINVARIANT Emit\nCHECK_DEADLOCK FALSE\n",
 		core.TLASet(c.Findings.OpenIDs()), fam, maxLen, litLen)
@@ -480,12 +507,15 @@ var Spec = &gen.Spec{
 			maxLen, litLen = 5, 6
 		}
 		domBytes, byOp, n := Domain(c)
-		c.Note("number->text domain: %d cases %v", n, byOp)
+		c.Note("harness-supplied domain: %d cases %v", n, byOp)
+		selfBytes, selfN := selfDomain(c)
 		return []gen.RunCfg{
 			{Name: fmt.Sprintf("text->number: all strings of <= %d tokens, literal texts of <= %d characters, hand-chosen strings x radixes", maxLen, litLen),
 				Cfg: cfg(c, "text", maxLen, litLen), Opts: tlc.Opts{Files: map[string][]byte{"dom.ndjson": placeholder}}},
 			{Name: fmt.Sprintf("harness-chosen domain: %d cases (number->text on seeded doubles with arguments; text->number on random literals, ties, mutations)", n),
 				Cfg: cfg(c, "dom", maxLen, litLen), Opts: tlc.Opts{Files: map[string][]byte{"dom.ndjson": domBytes}}},
+			{Name: fmt.Sprintf("self-check: 9.8.1 digits of %d doubles by two formulations (NumFmt!ShortDigits = NumText!ShortestDigits)", selfN),
+				Cfg: cfg(c, "self", maxLen, litLen), Opts: tlc.Opts{Files: map[string][]byte{"dom.ndjson": selfBytes}}},
 		}
 	},
 	Assume: []string{
